@@ -236,3 +236,120 @@ Theorem C01_subfs_refines_ref_normalised :
        sub_agree d (subfs_run (to_path true d) o s) (ref_run (nop o) sub) s = true.
 Proof. exact @subfs_refines_ref_normalised. Qed.
 Print Assumptions C01_subfs_refines_ref_normalised.
+
+(* ---- OSFS: the model over the POSIX kernel model (FS/Posix.v, FS/Osfs.v), tied to the real OSFS step by step on every run ---- *)
+(* TO APPEND VERBATIM to the end of /verif/coq/Props/C01.v (checked: `cat Props/C01.v /tmp/osfs/C01add.v` compiles and
+   prints 22 + 15 times "Closed under the global context").  It also compiles on its own:
+     cd /verif/coq && coqc -Q . PyFS /tmp/osfs/C01add.v
+   The import lines below may stay where they are (mid-file) or be merged into the header of C01.v - in that case keep
+   `String` LAST and add `Local Open Scope list_scope.` (String re-binds `length` / `++`). *)
+From Coq Require Import List NArith ZArith Bool String.
+From PyFS Require Import Base.PyStr Base.Outcome Base.Render FS.Tree FS.Ops FS.Ref FS.Agree FS.Mem FS.Wf
+     FS.RefineWalkLemmasBfs FS.Osfs FS.OsfsProofs.
+Import ListNotations.
+Local Open Scope list_scope.
+
+(* ---- OSFS: the model of fs.osfs.OSFS over the kernel model FS/Posix.v (tied to the real OSFS step by step by
+   harness/h_osfs.py) refines the reference for the 23 calls that do not go through the directory walker of
+   FS/Base.v - removetree, which on OSFS IS a walk, included ---- *)
+Theorem C01_osfs_initial : wf empty_dir /\ nn empty_dir.
+Proof. exact osfs_initial. Qed.
+Print Assumptions C01_osfs_initial.
+
+(* same verdict, admissible error class, same return value, same tree (names, types, bytes) *)
+Theorem C01_osfs_refines_ref : forall o s,
+  wf s -> nn s -> covered o = true -> os_mode_ok o = true ->
+  agree_nt (osfs_run o s) (ref_run o s) = true.
+Proof. exact osfs_refines_ref. Qed.
+Print Assumptions C01_osfs_refines_ref.
+
+(* ... and the same modification times, for the calls where the kernel's time rules are the reference's *)
+Theorem C01_osfs_refines_ref_times : forall o s,
+  wf s -> nn s -> covered o = true -> os_mode_ok o = true -> os_times_exact o = true ->
+  agree (osfs_run o s) (ref_run o s) = true.
+Proof. exact osfs_refines_ref_times. Qed.
+Print Assumptions C01_osfs_refines_ref_times.
+
+Theorem C01_osfs_wf_preserved : forall o s,
+  wf s -> nn s -> covered o = true -> wf (fst (osfs_run o s)).
+Proof. exact osfs_wf_preserved. Qed.
+Print Assumptions C01_osfs_wf_preserved.
+
+Theorem C01_osfs_nn_preserved : forall o s,
+  wf s -> nn s -> covered o = true -> nn (fst (osfs_run o s)).
+Proof. exact osfs_nn_preserved. Qed.
+Print Assumptions C01_osfs_nn_preserved.
+
+(* every call of every history of covered calls, from every well-formed state *)
+Theorem C01_osfs_history_refines : forall ops s,
+  wf s -> nn s -> forallb (fun o => covered o && os_mode_ok o) ops = true -> os_hist_ok s ops.
+Proof. exact osfs_history_refines. Qed.
+Print Assumptions C01_osfs_history_refines.
+
+(* swapping MemoryFS for OSFS: same verdict, classes from the same admissible set, same tree up to times *)
+Theorem C01_osfs_mem_same_verdict : forall o s,
+  wf s -> nn s -> covered o = true -> os_mode_ok o = true ->
+  agree_nt (osfs_run o s) (ref_run o s) = true /\ agree (mem_run o s) (ref_run o s) = true /\
+  verdict (snd (osfs_run o s)) = verdict (snd (mem_run o s)) /\
+  tree_eqb false (fst (osfs_run o s)) (fst (mem_run o s)) = true.
+Proof. exact osfs_mem_same_verdict. Qed.
+Print Assumptions C01_osfs_mem_same_verdict.
+
+(* the side condition on open modes is needed: a finding (confirmed on the real OSFS) *)
+Theorem C01_osfs_iomode_refuted :
+  let o := OOpenwrite (lit "f") (lit "rw") (lit "XY") in
+  covered o = true /\ os_mode_ok o = false /\
+  agree_nt (osfs_run o ce_state) (ref_run o ce_state) = false /\
+  snd (osfs_run o ce_state) = Crash ValueError /\ agree (mem_run o ce_state) (ref_run o ce_state) = true.
+Proof. exact osfs_refines_ref_iomode_ce. Qed.
+Print Assumptions C01_osfs_iomode_refuted.
+
+(* removetree with a NUL that a back-reference would cancel ("a\0/..", "x\0/../a"): REJECTED, tree unchanged
+   (FS.removetree validates first since /repo b9cf049; before, the first spelling emptied the filesystem) *)
+Theorem C01_osfs_removetree_nul_rejected :
+  wf ce_tree /\ nn ce_tree /\
+  osfs_run (ORemovetree ce_p1) ce_tree = (ce_tree, Err InvalidCharsInPath) /\
+  ref_run (ORemovetree ce_p1) ce_tree = fail ce_tree [InvalidCharsInPath] /\
+  agree (osfs_run (ORemovetree ce_p1) ce_tree) (ref_run (ORemovetree ce_p1) ce_tree) = true.
+Proof. exact os_removetree_nul_backref_rejected. Qed.
+Print Assumptions C01_osfs_removetree_nul_rejected.
+
+Theorem C01_osfs_removetree_nul_rejected_all : forall p s, has_char Mem.nul p = true ->
+  osfs_run (ORemovetree p) s = (s, Err InvalidCharsInPath).
+Proof. exact os_removetree_nul_rejected. Qed.
+Print Assumptions C01_osfs_removetree_nul_rejected_all.
+
+(* removetree still needs NUL-free NAMES in the tree (the walk re-validates every path it builds) *)
+Theorem C01_osfs_removetree_needs_nn :
+  wf ce_nn_tree /\
+  agree_tm true (osfs_run (ORemovetree (lit "a")) ce_nn_tree) (ref_run (ORemovetree (lit "a")) ce_nn_tree)
+  = false.
+Proof. exact os_removetree_needs_nn_ce. Qed.
+Print Assumptions C01_osfs_removetree_needs_nn.
+
+(* times: shutil.copy2 always keeps the source's time *)
+Theorem C01_osfs_copy_time_refuted :
+  let o := OCopy (lit "f") (lit "g") false false in
+  agree (osfs_run o ce_state) (ref_run o ce_state) = false /\
+  agree_nt (osfs_run o ce_state) (ref_run o ce_state) = true /\
+  lookup (fst (osfs_run o ce_state)) [lit "g"] = Some (File (lit "ff") (Some 5%Z)).
+Proof. exact osfs_refines_ref_times_copy_ce. Qed.
+Print Assumptions C01_osfs_copy_time_refuted.
+
+(* makedirs on OSFS: FS.makedirs over the OSFS essentials is the same function of a well-formed tree as over
+   MemoryFS's (osfs_run_makedirs_mem), so MemoryFS's proof carries over *)
+Theorem C01_osfs_makedirs_refines_ref : forall p recreate s cs,
+  wf s -> rpath p = inl cs ->
+  agree (osfs_run (OMakedirs p recreate) s) (ref_run (OMakedirs p recreate) s) = true.
+Proof. exact osfs_makedirs_refines_ref. Qed.
+Print Assumptions C01_osfs_makedirs_refines_ref.
+
+Theorem C01_osfs_makedirs_wf : forall p recreate s cs,
+  wf s -> rpath p = inl cs -> wf (fst (osfs_run (OMakedirs p recreate) s)).
+Proof. exact osfs_makedirs_wf. Qed.
+Print Assumptions C01_osfs_makedirs_wf.
+
+Theorem C01_osfs_makedirs_nn : forall p recreate s cs,
+  wf s -> nn s -> rpath p = inl cs -> nn (fst (osfs_run (OMakedirs p recreate) s)).
+Proof. exact osfs_makedirs_nn. Qed.
+Print Assumptions C01_osfs_makedirs_nn.
